@@ -54,7 +54,50 @@ func (s *section) bases() [][2]interface{} {
 	if s.rich != nil {
 		out = append(out, [2]interface{}{"rich", s.rich})
 	}
+	// the default JSON with every boolean setting the other way round (so that
+	// a later false has a true to override), where the loader accepts that
+	if fb := s.flippedBase(); fb != nil {
+		out = append(out, [2]interface{}{"bools-flipped", fb})
+	}
 	return out
+}
+
+func (s *section) flippedBase() []byte {
+	m, err := parseObj(s.base)
+	if err != nil {
+		return nil
+	}
+	n := 0
+	var walk func(x map[string]interface{})
+	walk = func(x map[string]interface{}) {
+		for k, v := range x {
+			switch t := v.(type) {
+			case bool:
+				x[k] = !t
+				n++
+			case map[string]interface{}:
+				walk(t)
+			}
+		}
+	}
+	walk(m)
+	// booleans the default JSON omits (omitempty false) become true
+	for _, f := range s.fields {
+		if f.kind == kBool {
+			if _, ok := getPath(m, f.path); !ok {
+				setPath(m, f.path, true)
+				n++
+			}
+		}
+	}
+	if n == 0 {
+		return nil
+	}
+	b := mustJSON(m)
+	if res := s.runComponent(b, nil); res.loadErr != nil || len(res.panics) > 0 || res.validateErr != nil {
+		return nil
+	}
+	return b
 }
 
 // (ii) one setting at a time over the default JSON (and over the rich base
